@@ -46,6 +46,9 @@ fn configs(max_nodes: usize) -> Vec<(Vec<usize>, Variant)> {
             for k in 0..n {
                 v.push((t.clone(), Variant::ErrAt(k)));
             }
+            if n == 1 {
+                v.push((t.clone(), Variant::RootCut));
+            }
         }
     }
     v
@@ -61,7 +64,7 @@ pub fn subs(tier: Tier) -> Vec<Sub> {
         &format!("cursor-used-vs-fresh-n{}-len{}", nodes, len),
         ncfg * 9,
         &format!(
-            "every sequence of exactly {} moves (shorter ones are prefixes) over {{next_entry, next_dfs, next_sibling}} on ONE EntriesCursor over every ordered tree with <= {} nodes x {{plain, leaves declared with children, DW_AT_sibling on inner nodes, entries after the root's terminator, invalid abbreviation code at node k}} ({} configurations); after every move: (a) next_entry is compared (result and current()) with next_entry on a fresh cursor from entries_at_offset(next_offset before the move); (b) an entry shown by current() is compared with the first read of a fresh cursor at that offset; (c) after an error current() shows what a fresh cursor shows after a failing first read: nothing",
+            "every sequence of exactly {} moves (shorter ones are prefixes) over {{next_entry, next_dfs, next_sibling}} on ONE EntriesCursor over every ordered tree with <= {} nodes x {{plain, leaves declared with children, DW_AT_sibling on inner nodes, entries after the root's terminator, invalid abbreviation code at node k, unit ending inside the root entry}} ({} configurations); after every move: (a) next_entry is compared (result and current()) with next_entry on a fresh cursor from entries_at_offset(next_offset before the move); (b) an entry shown by current() is compared with the first read of a fresh cursor at that offset; (c) after an error current() shows what a fresh cursor shows after a failing first read: nothing",
             len, nodes, ncfg
         ),
         move |ctx: &mut Ctx, i| {
